@@ -3,6 +3,9 @@ package fix
 import (
 	"crypto/sha256"
 	"fmt"
+	"io/ioutil"
+	"os"
+	"path/filepath"
 
 	"github.com/meshplus/bitxhub-kit/crypto"
 	"github.com/meshplus/bitxhub-kit/types"
@@ -79,3 +82,23 @@ func IBTPTx(k crypto.PrivateKey, nonce uint64, ibtp *pb.IBTP, proof []byte) *pb.
 }
 
 func FullID(chain, service string) string { return fmt.Sprintf("%d:%s:%s", ChainID, chain, service) }
+
+// WasmTestdata reads a wasm binary shipped with the repository's tests.
+func WasmTestdata(name string) []byte {
+	root := os.Getenv("VERIF_REPO")
+	if root == "" {
+		root = "/repo"
+	}
+	data, err := ioutil.ReadFile(filepath.Join(root, "pkg", "vm", "wasm", "testdata", name))
+	if err != nil {
+		panic(err)
+	}
+	return data
+}
+
+// XVMDeploy builds a signed WASM contract deployment (To = zero address).
+func XVMDeploy(k crypto.PrivateKey, nonce uint64, code []byte) *pb.BxhTransaction {
+	td := &pb.TransactionData{Type: pb.TransactionData_INVOKE, VmType: pb.TransactionData_XVM, Payload: code}
+	payload, _ := td.Marshal()
+	return sign(&pb.BxhTransaction{From: Addr(k), To: &types.Address{}, Payload: payload, Timestamp: BaseTime, Nonce: nonce}, k)
+}
